@@ -91,6 +91,8 @@ def actions_to_code(acts, ind=''):
             if echo:
                 lines.append("print('read', repr(_v))")
         elif a[0] == 'raise':
+            # (an object whose repr prints is at hand when the failure happens: nobody asks for its repr)
+            lines.append("_held = [noisy_thing] if 'noisy_thing' in globals() else None")
             lines.append("raise ValueError('planned')")
         elif a[0] == 'exit':
             lines.extend(a[1].split('\n'))
@@ -221,11 +223,15 @@ def gen_history(rng):
             ops.append(('call-inputs', rng.randrange(6), [rng.choice(INPUT_VALUES) for _ in range(rng.randint(0, 2))]))
         else:
             ops.append(('run-main-again', None))
-    return {'funcs': funcs, 'main': main, 'ops': ops, 'echo_to_console': rng.random() < 0.15}
+    return {'funcs': funcs, 'main': main, 'ops': ops, 'echo_to_console': rng.random() < 0.15, 'full_traceback': rng.random() < 0.25}
+
+
+NOISY = ("class Noisy:\n    def __repr__(self):\n        print('repr of a Noisy was asked for')\n        return 'Noisy()'\n"
+         "noisy_thing = Noisy()\n")
 
 
 def student_file(h):
-    parts = ['ask = input\n']
+    parts = ['ask = input\n', NOISY]
     for i, acts in enumerate(h['funcs']):
         parts.append('def f%d():\n%s\n    return %d\n' % (i, actions_to_code(acts, '    '), i * 10))
     parts.append(actions_to_code(h['main']))
@@ -251,6 +257,10 @@ def check_history(ctx, h):
     clear_report()
     contextualize_report(student_file({'funcs': funcs, 'main': main}))
     sandbox = sbx.get_sandbox()
+    if h.get('full_traceback'):
+        # the instructor's debugging switch: tracebacks keep pedal's own frames too - what the program wrote is the same
+        sandbox.full_traceback = True
+        ctx.count('histories_with_full_tracebacks')
     echo = bool(h.get('echo_to_console'))
     if echo:
         # the instructor lets print() show on the real console as well (allow_function('print')): what is captured is unchanged
